@@ -529,7 +529,7 @@ func TestC07_Random(t *testing.T) {
 	rec := evid.New("C07", "c07_random", "rapid: load histories of 0..6 loads (from map / from slices, growing and shrinking, zero keys, failing loads with mismatched slice lengths) on StrMap[int], StrMap[struct], Str2Str and strstore; key sets are unions of families (empty key, prefix chains, one stem with all 1-byte extensions, keys differing in first/last byte, embedded NUL/0xff, lengths 0..300 and 5000, counter keys up to 2000, raw bytes); probes = every loaded key, keys of the previous load, each key truncated/extended/flipped, concatenations, raw bytes; every case on 4 fresh instances (fresh hash seeds); oracle = Go map; non-trivial = >= 2 loads, prefix-related keys, or the never-loaded/empty state")
 	defer rec.Flush()
 	rec.Assume("hash/maphash seeds are chosen by the runtime per instance and are not injectable; each case runs on 4 fresh instances")
-	runRapid(t, rec, "c07_strmap", evid.Pick(6000, 10000), genStrMapCase, checkStrMap)
+	runRapid(t, rec, "c07_strmap", evid.Pick(6000, 40000), genStrMapCase, checkStrMap)
 }
 
 func TestC07_Sizes(t *testing.T) {
